@@ -25,7 +25,8 @@ EXTENDS Integers, Sequences, FiniteSets, TLC, Json
 CONSTANTS MaxEnters, MaxDepth,
           ArchCols,     \* function: archetype -> set of its columns
           Empty,        \* set of archetypes that hold no entity
-          Ents          \* entity indices per non-empty archetype
+          Ents,         \* entity indices per non-empty archetype
+          ZstCols       \* zero-sized columns: they have a RefCell like any other, but no payload
 
 Archs == DOMAIN ArchCols
 Cells == {<<a, c>> : a \in Archs, c \in UNION {ArchCols[x] : x \in Archs}} \cap
@@ -74,9 +75,9 @@ Enter(x) ==
     /\ WellFormed(x)
     /\ enters' = enters + 1
     /\ IF CanTake(Needs(x))
-       THEN LET reads == HasBody(x) /\ x.a \notin Empty      \* a slice of an empty archetype has no cell to read
+       THEN LET reads == HasBody(x) /\ x.a \notin Empty /\ x.c \notin ZstCols   \* nothing to read in an empty slice / a zero-sized cell
                 seen  == IF reads THEN mem[Target(x)] ELSE -1 IN
-            /\ hist' = Append(hist, <<"enter", x, "ok", seen, HasBody(x)>>)
+            /\ hist' = Append(hist, <<"enter", x, "ok", IF HasBody(x) /\ x.a \notin Empty /\ x.c \in ZstCols THEN 0 ELSE seen, HasBody(x)>>)
             /\ mem' = IF reads /\ x.m = "m" THEN [mem EXCEPT ![Target(x)] = enters + 1] ELSE mem
             /\ IF HasBody(x)
                THEN /\ stack' = Append(stack, [x |-> x, held |-> Needs(x)])
@@ -127,7 +128,8 @@ FreeAtRest == (stack = <<>>) => \A cl \in Cells : cells[cl] = 0
 Export == done => PrintT(<<"NEST", ToJson(hist)>>)
 
 \* constant values for the configurations (harness archetypes Aq(Ta,Tb,Tz) and Ar(Tb,Th,..))
-DefArchCols == [Aq |-> {"Ta", "Tb"}, Ar |-> {"Tb", "Th"}]
+DefArchCols == [Aq |-> {"Ta", "Tb", "Tz"}, Ar |-> {"Tb", "Th"}]
+DefZst == {"Tz"}
 NoneEmpty == {}
 ArEmpty == {"Ar"}
 TwoEnts == {1, 2}
